@@ -27,6 +27,7 @@ type Violation struct {
 func (v Violation) String() string { return fmt.Sprintf("%s %s: %s", v.Prop, v.Code, v.Msg) }
 
 type judge struct {
+	lease map[string]int64 // task id -> guaranteed lease end (claim or last timely heartbeat + ttl)
 	s     *Sim
 	out   []Violation
 	reqBy map[string]*ReqRec
@@ -127,7 +128,7 @@ func inTicks(ts []int64, v int64) bool {
 
 // Judge evaluates every statement-derived invariant on the trace of s.
 func Judge(s *Sim) []Violation {
-	j := &judge{s: s, reqBy: map[string]*ReqRec{}, txsBy: map[string][]*TxRec{}, sends: map[string][]*SendRec{}}
+	j := &judge{lease: map[string]int64{}, s: s, reqBy: map[string]*ReqRec{}, txsBy: map[string][]*TxRec{}, sends: map[string][]*SendRec{}}
 	for _, r := range s.Reqs {
 		j.reqBy[r.Id] = r
 	}
@@ -186,7 +187,11 @@ func (j *judge) judgeTx(tx *TxRec, claims map[string][]string) {
 		// background instances: the instance started at the tick in its id
 		if i := strings.LastIndex(tx.ReqId, ":"); i >= 0 {
 			var t0 int64
-			if _, err := fmt.Sscan(tx.ReqId[i+1:], &t0); err == nil && t0 <= tx.Tick {
+			num := tx.ReqId[i+1:]
+			if k := strings.Index(num, "#"); k >= 0 {
+				num = num[:k]
+			}
+			if _, err := fmt.Sscan(num, &t0); err == nil && t0 <= tx.Tick {
 				reqTicks = j.windowTicks(t0, tx.Tick)
 			}
 		}
@@ -469,6 +474,9 @@ func (j *judge) txTask(tx *TxRec, req *ReqRec, reqTicks []int64, c core.Change, 
 			if a.I("counter") != 1 {
 				j.add("C07", "T3", "", "task %s born with counter %d", c.Key, a.I("counter"))
 			}
+			if a.I("state") == tClaimed {
+				j.lease[c.Key] = a.I("expires_at")
+			}
 		default:
 			j.add("C08", "B6", "", "task %s appeared without cause (tx#%d %s [%s]): %s", c.Key, tx.Seq, tx.ReqId, tx.CmdString(), core.RowString(a))
 		}
@@ -523,6 +531,7 @@ func (j *judge) txTask(tx *TxRec, req *ReqRec, reqTicks []int64, c core.Change, 
 		} else {
 			k := fmt.Sprintf("%s|%d", c.Key, bc)
 			claims[k] = append(claims[k], req.Id)
+			j.lease[c.Key] = a.I("expires_at")
 			cr := req.Req.ClaimTask
 			if a.S("process_id") != cr.ProcessId || a.I("ttl") != int64(cr.Ttl) || !inTicks(reqTicks, a.I("expires_at")-a.I("ttl")) {
 				j.add("C07", "T4", "", "task %s claimed by %s but stored holder/lease is %s (lease must be a clock reading of the request + ttl; window %v)", c.Key, req, core.RowString(a), rel(reqTicks))
@@ -532,8 +541,14 @@ func (j *judge) txTask(tx *TxRec, req *ReqRec, reqTicks []int64, c core.Change, 
 			}
 		}
 	case bs == tClaimed && as == tInit:
-		if !(b.I("expires_at") <= tx.Tick) && !(b.I("timeout") <= tx.Tick) {
-			j.add("C07", "T4", "", "task %s taken from its holder %s at tick %d, before the lease end %d (tx#%d %s)", c.Key, b.S("process_id"), tx.Tick-Base, b.I("expires_at")-Base, tx.Seq, tx.ReqId)
+		// the guaranteed lease: claim or last *timely* heartbeat + ttl (a heartbeat that arrives after the
+		// lease ran out earns nothing, the sweep may already have decided)
+		g, tracked := j.lease[c.Key]
+		if !tracked {
+			g = b.I("expires_at")
+		}
+		if !(g <= tx.Tick) && !(b.I("timeout") <= tx.Tick) {
+			j.add("C07", "T4", "", "task %s taken from its holder %s at tick %d, before the lease end %d (tx#%d %s)", c.Key, b.S("process_id"), tx.Tick-Base, g-Base, tx.Seq, tx.ReqId)
 		}
 		if ac <= bc {
 			j.add("C07", "T5", "", "task %s: lease reclaimed without increasing the counter (%d -> %d)", c.Key, bc, ac)
@@ -574,6 +589,9 @@ func (j *judge) txTask(tx *TxRec, req *ReqRec, reqTicks []int64, c core.Change, 
 	case bs == tClaimed && as == tClaimed:
 		// heartbeat of the owning process: only the lease end moves, to clock + ttl
 		ok := req != nil && req.Req.Kind == t_api.HeartbeatTasks && req.Req.HeartbeatTasks.ProcessId == b.S("process_id")
+		if g, tracked := j.lease[c.Key]; ok && (!tracked || a.I("expires_at")-a.I("ttl") < g) {
+			j.lease[c.Key] = a.I("expires_at") // timely heartbeat: clock reading before the lease ran out
+		}
 		if !ok || a.S("process_id") != b.S("process_id") || a.I("ttl") != b.I("ttl") || ac != bc || !inTicks(reqTicks, a.I("expires_at")-a.I("ttl")) {
 			j.add("C07", "T4", "", "claimed task %s modified other than by a heartbeat of its holder to clock+ttl (tx#%d %s): %s -> %s", c.Key, tx.Seq, tx.ReqId, core.RowString(b), core.RowString(a))
 		}
@@ -1246,10 +1264,8 @@ func (j *judge) judgeSend(sd *SendRec) {
 			j.add("C08", "B5", "", "message body for task %s counter %d does not name it: %s", t.Id, t.Counter, sd.Body)
 		}
 	}
-	// the row at hand-off: the message names the stored (id, counter) if the row is still dispatchable
-	if row, ok := j.s.Snaps[sd.SnapIdx]["tasks"][t.Id]; ok && row.I("state") == tInit && row.I("counter") != int64(t.Counter) {
-		j.add("C08", "B5", "", "task %s dispatched with counter %d but stored counter is %d", t.Id, t.Counter, row.I("counter"))
-	}
+	// (the counter is compared with the row the cycle read, in judgeDispatch: between that read and the
+	// hand-off the task may legitimately have been claimed and reclaimed, which the statement allows)
 }
 
 // judgeDispatch is C08-B3: per dispatch cycle, what was selected.
